@@ -190,7 +190,9 @@ reg("C01", fast=True, fast_only=("sine",),
     rule="constant pacer: single calls on a boundary lattice of (Freq, Per, elapsed, hits) incl. 0, +-1, Per+-1, "
          "2^31, 2^62, MaxInt64, negatives, hits near the schedule and near MaxUint64; closed loops in virtual time "
          "(10..400 calls, every 400th 20000) for dividing, non-dividing and above-1-per-ns rates with no, rare and "
-         "frequent stalls; non-trivial = positive Freq and Per",
+         "frequent stalls. Linear pacer (every 24th case): closed loops of 20..270 calls, slopes flat / steep / negative (rate reaching zero) / high rates / degenerate and negative "
+         "parameters, every call recorded. Sine pacer (every 24th case): closed loops of 20..320 calls, periods 1 s .. 10^6 s, means 1..1000 per 1..60 s, amplitudes 0, 0.1, 0.5, 0.9, 0.99, 0.999, 0.9999 of the mean, "
+         "start at the four quarter points or a random phase, invalid configurations, no / rare / frequent stalls, every call recorded; non-trivial = positive Freq and Per",
     clauses={1: "Pace panicked", 2: "zero frequency/unit does not mean unlimited rate", 3: "negative frequency/unit does not stop the attack",
              4: "released hit puts the count more than one hit above the schedule", 5: "positive wait although the count is behind the schedule",
              6: "wait wrapped around (instant outside int64)", 7: "wait overshoots the schedule by more than the 1ns quantisation",
@@ -205,12 +207,19 @@ reg("C01", fast=True, fast_only=("sine",),
     diffs={10: "ConstantPacer.Pace differs from the model", 11: "ConstantPacer.Rate differs", 30: "closed-loop release instants differ from the model's", 31: "closed-loop final outcome differs",
            50: "LinearPacer.Pace wait differs from the exact-Q model beyond the guard band", 51: "LinearPacer.Rate differs", 52: "LinearPacer: model stops, implementation waits", 53: "LinearPacer: implementation stops, model waits",
            71: "SinePacer.Rate lies outside the verified enclosure of M + A sin(O + 2 pi t / P)"},
-    assumptions=["linear and sine pacers use float64 arithmetic: see DESIGN.md section 5 C01 for their partial treatment",
-                 "elapsed in [0, 2^63), hits in [0, 2^64) for the contract theorems (const_dom); the no-panic / sign theorems hold for all integers"],
-    level_text="closed_loop_upper (generic, all pacers/stall histories/lengths), const_no_panic, const_neg_stops, const_zero_unlimited, const_overflow_stops, const_contract, const_positive_wait, const_lower are proved in Coq over Z with the uint64/int64 wrap-arounds of the Go code written out; the model is compared bit-exactly with ConstantPacer.Pace on every run, and the property's clauses are decided on every observed call and closed-loop trajectory by a checker defined in Coq.",
-    technique="Coq proof over exact integer model (nia/lia), closed-loop induction; bit-exact differential correspondence",
-    timeout={"quick": 600, "thorough": 3000})
-
+    assumptions=["elapsed in [0, 2^63), hits in [0, 2^64) for the contract theorems (const_dom); the no-panic / sign theorems hold for all integers",
+                 "linear pacer: float rounding is not modelled; the exact-Q model is compared inside a guard band (2^-30 relative on the schedule, 3 ns + delta on the wait), calls meeting float special values or out-of-range conversions are don't-care",
+                 "sine pacer: Pace (a float64 numerical inversion) is not modelled; each real call is judged against verified enclosures of the schedule; a comparison the enclosure cannot decide is don't-care; |StartAt| <= 500",
+                 "the lower bound (count not more than one hit + 1 ns of schedule per hit interval behind) is decided on stall-free histories only: after a stall the attacker is behind by construction"],
+    trusted_base=["the sine statements (sine_schedule_enclosed, sine_rate_enclosed, sine_schedule_mono, sine_closed_loop_upper_partial) use Coq's real numbers: standard-library axioms ClassicalDedekindReals.sig_not_dec, sig_forall_dec, "
+                  "Classical_Prop.classic, FunctionalExtensionality.functional_extensionality_dep as Print Assumptions reports them, and the Interval tactic (bounds on PI, 2^-80) which computes with the kernel's primitive integers and floats "
+                  "(PrimInt63.*, PrimFloat.*, Uint63 specification axioms of the standard library)"],
+    level_text="Constant pacer, in full: closed_loop_upper (generic, all pacers/stall histories/lengths), const_no_panic, const_neg_stops, const_zero_unlimited, const_overflow_stops, const_contract, const_positive_wait, const_lower proved over Z with the uint64/int64 wrap-arounds written out; bit-exact tie. "
+               "Linear pacer: linear_contract_pos, linear_closed_loop_upper (non-negative slope, every stall history, calls at rates <= 5*10^8/s), linear_schedule_mono, linear_positive_wait, linear_neg_stops, linear_zero_unlimited proved over exact rationals; linear_neg_refuted (negative slope: known finding); tie inside a guard band. "
+               "Sine pacer, PARTIAL: sine_schedule_enclosed / sine_rate_enclosed (the checker's Q-interval evaluator - Taylor sums + angle doubling + outward rounding - encloses the real schedule and rate), sine_schedule_mono, and sine_closed_loop_upper_partial (count within one hit for every history whose calls keep the per-call contract) proved over R; "
+               "that the float64 inversion in Pace keeps the contract is not proved: it is decided call by call on the real pacer with the verified enclosures.",
+    technique="Coq proofs over Z (constant), Q (linear) and R with verified Q-interval enclosures (sine); closed-loop induction; bit-exact / guard-band / enclosure-decided differential correspondence",
+    timeout={"quick": 900, "thorough": 3600})
 reg("C19",
     needs_cli=True,
     rule="textual flag values fed to flag.Value.Set of the real flag types through the verif driver of package main: "
